@@ -1,6 +1,7 @@
 package sim
 
 import (
+	"bytes"
 	"context"
 	"errors"
 	"net"
@@ -26,6 +27,9 @@ type World struct {
 	Idle chan int
 	// AutoBroker lets the broker react to every client write at once, also in gated mode.
 	AutoBroker bool
+	// StallAfter > 0: on the first connection the broker stops reading after that many Write calls went through:
+	// further writes block (free mode) until the connection is closed or broken
+	StallAfter int
 	// CloseErr makes Conn.Close return an error (after closing).
 	CloseErr bool
 }
@@ -126,6 +130,8 @@ type Conn struct {
 	wrArmed  bool
 	writers  int // concurrent Write calls (C08)
 	overlap  bool
+	nwrites  int    // completed Write calls
+	rest     []byte // what the last Write call did not get accepted: a retry has to continue with exactly these bytes
 }
 
 func (c *Conn) ID() int { return c.id }
@@ -235,8 +241,19 @@ func (c *Conn) Write(b []byte) (int, error) {
 		err, errs = closedErr("write"), "closed"
 	case c.dead:
 		err, errs = ErrHard, "hard"
+	case o.Kind == "free" && c.id == 1 && c.w.StallAfter > 0 && c.nwrites >= c.w.StallAfter:
+		// a broker that stopped reading: the write blocks until somebody closes the connection
+		for !c.closed && !c.dead {
+			c.cond.Wait()
+		}
+		if c.closed {
+			err, errs = closedErr("write"), "closed"
+		} else {
+			err, errs = ErrHard, "hard"
+		}
 	case o.Kind == "free" || o.Kind == "ok" || o.Kind == "":
 		n = len(b)
+		c.nwrites++
 	case o.Kind == "timeout":
 		n = o.N
 		if n > len(b) {
@@ -259,13 +276,20 @@ func (c *Conn) Write(b []byte) (int, error) {
 		err, errs = ErrHard, "hard"
 		c.w.Rec.Emit(Ev{"e": "diverge", "step": 0, "why": "write outcome " + o.Kind + " does not apply"})
 	}
+	// after an incomplete Write the library may go on with the rest of those bytes, and with nothing else (C08)
+	cont := len(c.rest) == 0 || bytes.Equal(b, c.rest)
+	if n < len(b) {
+		c.rest = append([]byte(nil), b[n:]...)
+	} else {
+		c.rest = nil
+	}
 	got := c.c2b.Feed(b[:n])
 	tail := c.c2b.Tail()
 	overlap := c.overlap
 	ptail := partial(c.c2b.TailBytes())
 	c.mu.Unlock()
 	c.w.Rec.Emit(Ev{"e": "cw", "c": c.id, "p": me, "n": n, "of": len(b), "err": errs, "pk": pkList(got), "tail": tail,
-		"ptype": ptail[0], "pid": ptail[1], "overlap": overlap})
+		"ptype": ptail[0], "pid": ptail[1], "overlap": overlap, "cont": cont})
 	if (o.Kind == "free" || c.w.AutoBroker) && err == nil {
 		c.w.Broker.Pump(c)
 	}
